@@ -1,9 +1,10 @@
 #!/bin/bash
-# usage: bin/seeded-matrix.sh [report-file]  -- runs every seeded mutant against the check of
+# usage: bin/seeded-matrix.sh [report-file] [id-regex]  -- runs every seeded mutant (matching id-regex) against the check of
 # its own property (quick tier) in a scratch worktree of /repo (VERIF_REPO), in parallel.
 # /repo itself is never touched. Prints "<id> <prop> DETECTED|MISSED|BROKEN keys...".
 VERIF=$(cd "$(dirname "$0")/.." && pwd)
 OUT=${1:-/tmp/seeded-matrix.txt}
+FILTER=${2:-.}
 : > "$OUT"
 one() {
   ID=$1; VERIF=$2; OUT=$3
@@ -21,5 +22,5 @@ one() {
   git -C /repo worktree remove --force "$W" >/dev/null 2>&1; rm -rf "$W" "$EVD" "$VERIF/.build/sm-$ID"
 }
 export -f one
-ls "$VERIF/seeded" | grep -E '^C[0-9]+-[0-9]+$' | xargs -P 4 -I{} bash -c 'one {} '"$VERIF"' '"$OUT"
+ls "$VERIF/seeded" | grep -E '^C[0-9]+-[0-9]+$' | grep -E "$FILTER" | xargs -P 4 -I{} bash -c 'one {} '"$VERIF"' '"$OUT"
 sort "$OUT"
